@@ -763,3 +763,11 @@ func Roles(pairs ...string) func(string) string {
 
 // And returns the conjunction of two formulas.
 func And(a, b Formula) Formula { return fAnd{a, b} }
+
+// Or, Not, AtomF and Implies build formulas for rules that combine computed path conditions.
+func Or(fs ...Formula) Formula { return fOr(fs) }
+func Not(a Formula) Formula    { return fNot{a} }
+func AtomF(key string) Formula { return fAtom(key) }
+func Implies(a, b Formula, atoms map[string]bool) (bool, string) {
+	return Equivalent(fAnd{a, b}, a, atoms)
+}
